@@ -1,4 +1,4 @@
-import MahfModel.Model.Pso
+import MahfModel.Model.PsoLoop
 open MahfModel MahfModel.Pso
 
 namespace C18Drv
@@ -74,8 +74,40 @@ def velHolds (w c1 c2 vmax : Float) (sw : Swarm Float) (g : Part Float)
   | c :: _ => (false, c)
   | [] => (true, "-")
 
-/-- Correspondence of a successful velocity update, insensitive to which of the two consumed draws
-feeds which term and to the association of the sum (relative tolerance 1e-9). -/
+/-- One coordinate waiting for its two coefficients: `(w·v, c1·(xp − x), c2·(xg − x), v')`. -/
+structure Slot where
+  t1 : Float
+  a : Float
+  b : Float
+  v' : Float
+
+def Slot.fits (vmax : Float) (s : Slot) (r1 r2 : Float) : Bool :=
+  close 1e-9 s.v' (clamp (-vmax) vmax (s.t1 + s.a * r1 + s.b * r2)) (s.t1.abs + s.a.abs + s.b.abs)
+
+/-- Every way of taking one element out of a list. -/
+def pickOne : List Float → List (Float × List Float)
+  | [] => []
+  | x :: xs => (x, xs) :: (pickOne xs).map (fun (y, rest) => (y, x :: rest))
+
+/-- Is there an assignment of DISTINCT consumed draws to the coefficient slots of the coordinates under
+which every new velocity is the documented formula? (Depth-first; the most constrained coordinates come
+first, so a wrong choice for a clamped or degenerate coordinate cannot starve an exact one.) -/
+def assignDraws (vmax : Float) : Nat → List Slot → List Float → Bool
+  | 0, _, _ => false
+  | _, [], _ => true
+  | fuel + 1, s :: ss, ds =>
+    (pickOne ds).any fun (r1, rest1) =>
+      (pickOne rest1).any fun (r2, rest2) => s.fits vmax r1 r2 && assignDraws vmax fuel ss rest2
+
+def insertBy (key : Slot → Nat) (s : Slot) : List Slot → List Slot
+  | [] => [s]
+  | t :: ts => if key s ≤ key t then s :: t :: ts else t :: insertBy key s ts
+
+/-- Correspondence of a successful velocity update. The witness is the stream of draws the update consumed;
+WHICH of the draws a particle consumed feeds which coefficient of which of its coordinates is not part of
+the property (the theorems quantify over all draws): the implementation's velocities must be the formula
+under SOME one-to-one assignment of the particle's `2·dim` draws to its `2·dim` coefficient slots; the
+association of the sum is free (relative tolerance 1e-9); `x' = x + v'`. -/
 def velAgreeOk (w c1 c2 vmax : Float) (sw : Swarm Float) (g : Part Float) (draws : List (List (Float × Float)))
     (xs' : List (Part Float)) (vs' : List (List Float)) : Bool :=
   let n := sw.xs.length
@@ -84,16 +116,14 @@ def velAgreeOk (w c1 c2 vmax : Float) (sw : Swarm Float) (g : Part Float) (draws
     x'.pos.length == x.pos.length && v'.length == v.length &&
     -- coordinates beyond the velocity's length are only transported
     ((x'.pos.drop v.length).zip (x.pos.drop v.length)).all (fun (a, b) => a == b) &&
-    (List.zip (zip3 v x.pos p.pos) (List.zip (zip3 v' x'.pos g.pos) rs)).all
-      fun ((v, x, xp), ((v', x', xg), (r1, r2))) =>
-        let t1 := w * v
-        let a := c1 * (xp - x)
-        let b := c2 * (xg - x)
-        let scale := t1.abs + a.abs + b.abs
-        let want1 := clamp (-vmax) vmax (t1 + a * r1 + b * r2)
-        let want2 := clamp (-vmax) vmax (t1 + a * r2 + b * r1)
-        (close 1e-9 v' want1 scale || close 1e-9 v' want2 scale) &&
-        close 1e-9 x' (x + v') (x.abs + v'.abs)
+    ((zip3 x.pos v' x'.pos).all fun (x, v', x') => close 1e-9 x' (x + v') (x.abs + v'.abs)) &&
+    (let slots : List Slot := (List.zip (zip3 v x.pos p.pos) (List.zip v' g.pos)).map
+        fun ((v, x, xp), (v', xg)) => { t1 := w * v, a := c1 * (xp - x), b := c2 * (xg - x), v' }
+     let block : List Float := rs.flatMap (fun (r1, r2) => [r1, r2])
+     let count := fun (s : Slot) =>
+       ((pickOne block).map fun (r1, rest) => ((pickOne rest).filter fun (r2, _) => s.fits vmax r1 r2).length).foldl (· + ·) 0
+     let sorted := slots.foldl (fun acc s => insertBy count s acc) []
+     rs.length == v.length && assignDraws vmax (slots.length + 1) sorted block)
 
 def allFinite (sw : Swarm Float) (g : Part Float) : Bool :=
   sw.xs.all (fun x => x.pos.all Float.isFinite) && sw.vs.all (fun v => v.all Float.isFinite) &&
@@ -244,6 +274,39 @@ def swarmCase (args : List Sexp) (implOut : Sexp) : Option Verdict := do
     pure { agree := Sexp.beq model implOut, holds, cls := if holds then "-" else cls, model }
   | _ => none
 
+/-- The `ParticleSwarmInit` block. The sampled velocities are the witness (legality checked). O is the
+property on the implementation's state: one entry per particle, and the global best a minimal personal
+best — which fails when the state still held a better (or equally good) global best of an earlier swarm. -/
+def swarmInitCase (args : List Sexp) (implOut : Sexp) : Option Verdict := do
+  let vmax ← float1 "vmax" args
+  let dim ← nat1 "dim" args
+  let xs ← (← field "xs" args).mapM part?
+  let gbest ← match field "gbest" args with
+    | some g => gbest? g
+    | none => some none
+  match implOut with
+  | .list [.atom "ctor-err"] => pure { agree := !(vmax > 0.0), holds := true, model := .atom "ctor-err" }
+  | .list [.atom status, vsS', pbS, gS] =>
+    let vs' ← (← Sexp.tagged? "vs" vsS').mapM floats?
+    let sw : Swarm Float := { xs, vs := [], pbest := [], gbest, w := 0.0 }
+    let legal := velInitLegal vmax dim vs' sw
+    let msw := swarmInit vs' sw
+    let model := Sexp.list [.atom "ok", vsS msw.vs, partsS "pbest" msw.pbest, gbestS msw.gbest]
+    let agree := status == "ok" && vmax > 0.0 && legal && Sexp.beq model implOut
+    let (holds, cls) :=
+      if status != "ok" then (false, status)
+      else if !legal then (false, "clamp")
+      else match (Sexp.tagged? "pbest" pbS).bind (·.mapM part?), (Sexp.tagged? "gbest" gS).bind gbest? with
+        | some pb', some g' =>
+          if pb'.length != xs.length || vs'.length != xs.length then (false, "count")
+          else if gbestHolds pb' g' then (true, "-")
+          else match g' with
+            | some g => if pb'.any (partBEq g) then (false, "gbest-not-min") else (false, "gbest-not-a-pbest")
+            | none => (false, "gbest-missing")
+        | _, _ => (false, "unreadable")
+    pure { agree, holds, cls := if holds then "-" else cls, model }
+  | _ => none
+
 def linearCase (args : List Sexp) (implOut : Sexp) : Option Verdict := do
   let start ← float1 "start" args
   let stop ← float1 "end" args
@@ -284,7 +347,7 @@ def stepOk (start stop : Float) (st : Sexp) : Bool × String :=
       else if !((List.zip n r).all fun (a, b) => close 1e-12 a b (a.abs + b.abs)) then (false, "stale-best")
       else (true, "-")
     | _, _, _, _, _ => (false, "bad-step")
-  | .list [.atom "gb", g, pbo, member] =>
+  | .list [.atom "inv", g, pbo, member] =>
     match g.float?, floats? pbo with
     | some g, some pbo =>
       if !(pbo.all fun o => g ≤ o) || !(pbo.any fun o => o == g) then (false, "gbest-not-min")
@@ -300,11 +363,110 @@ def runCase (args : List Sexp) (implOut : Sexp) : Option Verdict := do
     let steps ← Sexp.tagged? "steps" stepsS
     let bad := (steps.map (stepOk start stop)).filter (fun r => !r.1)
     let n := fun (t : String) => (steps.filter (fun s => match s with | .list (.atom h :: _) => h == t | _ => false)).length
-    let holds := bad.isEmpty && (status != "ok" || (n "pb" > 0 && n "gb" > 0 && n "inertia" > 0))
+    let holds := bad.isEmpty && (status != "ok" || (n "pb" > 0 && n "inv" > 0 && n "inertia" > 0))
     let cls := match bad with
       | (_, c) :: _ => c
       | [] => if holds then "-" else "no-steps"
-    pure { agree := holds, holds, cls, model := .list [.atom "steps", Sexp.ofNat steps.length] }
+    -- the model never ends in `Err` / panic on these inputs (`run_keeps_swarm_consistent`)
+    pure { agree := holds && status == "ok", holds, cls, model := .list [.atom "steps", Sexp.ofNat steps.length] }
+  | _ => none
+
+/-! ### `runx`: runs under composite termination conditions, hybrid prefixes, without inertia update -/
+
+/-- `(lti n) | (lte k) | (not C) | (and C C) | (or C C) | (andn C+) | (orn C+)`; the n-ary forms
+(`And::new([..])`) evaluate their operands in the same order as the nested binary ones. -/
+def condOf : Nat → Sexp → Option Cond
+  | 0, _ => none
+  | _ + 1, .list [.atom "lti", n] => n.nat?.map Cond.ltIter
+  | _ + 1, .list [.atom "lte", n] => n.nat?.map Cond.ltEval
+  | fuel + 1, .list [.atom "not", c] => (condOf fuel c).map Cond.not
+  | fuel + 1, .list [.atom "and", a, b] => do pure (Cond.and (← condOf fuel a) (← condOf fuel b))
+  | fuel + 1, .list [.atom "or", a, b] => do pure (Cond.or (← condOf fuel a) (← condOf fuel b))
+  | fuel + 1, .list (.atom "andn" :: x :: xs) => do
+    let first ← condOf fuel x
+    xs.foldlM (fun acc y => do pure (Cond.and acc (← condOf fuel y))) first
+  | fuel + 1, .list (.atom "orn" :: x :: xs) => do
+    let first ← condOf fuel x
+    xs.foldlM (fun acc y => do pure (Cond.or acc (← condOf fuel y))) first
+  | _, _ => none
+
+def closeN (tol a b scale : Float) : Bool := (a.isNaN && b.isNaN) || close tol a b scale
+
+/-- An observed `Progress` (`x` = not in the state) against the model's. -/
+def progAgrees (obs : Sexp) (m : Option Float) : Bool :=
+  match obs, m with
+  | .atom "x", none => true
+  | o, some p => match o.float? with
+    | some v => closeN 1e-15 v p 1.0
+    | none => false
+  | _, _ => false
+
+/-- K for the loop: the condition model, fed with the counters observed at each pass boundary, must
+answer `true` before every pass and `false` at the exit, passes must be numbered 0, 1, 2, …, and the
+two `Progress` states must hold what the model's evaluation leaves behind. -/
+def loopAgrees (c : Cond) (steps : List Sexp) : Bool :=
+  let lv0 : LoopVars Float := condInit 0.0 c ⟨0, 0, none, none⟩
+  let obs := steps.filterMap fun s => match s with
+    | .list [.atom "passx", it, ev, pi, pe] => some (true, it, ev, pi, pe)
+    | .list [.atom "exitx", it, ev, pi, pe] => some (false, it, ev, pi, pe)
+    | _ => none
+  let rec go (k : Nat) : List (Bool × Sexp × Sexp × Sexp × Sexp) → Bool
+    | [] => true
+    | (want, it, ev, pi, pe) :: rest =>
+      match it.nat?, ev.nat? with
+      | some it, some ev =>
+        let r := evalCond Float.ofNat c { lv0 with iters := it, evals := ev }
+        -- what the `Progress` states hold after the loop has ended is not C18's business
+        it == k && r.1 == want && (!want || (progAgrees pi r.2.progIter && progAgrees pe r.2.progEval)) && go (k + 1) rest
+      | _, _ => false
+  go 0 obs
+
+def runxCase (args : List Sexp) (implOut : Sexp) : Option Verdict := do
+  let start ← float1 "start" args
+  let stop ← float1 "end" args
+  let inertia ← nat1 "inertia" args
+  let c ← condOf 64 (← (← field "cond" args).head?)
+  let P : Params Float := { c1 := 0.0, c2 := 0.0, vmax := 0.0, start, stop, inertia := inertia == 1 }
+  let n := (c.lastIterBound).getD 0
+  match implOut with
+  | .list [.atom status, stepsS] =>
+    let steps ← Sexp.tagged? "steps" stepsS
+    let isX := fun (s : Sexp) => match s with
+      | .list (.atom h :: _) => h == "passx" || h == "exitx" || h == "wuse"
+      | _ => false
+    -- O, step by step: the clauses of the property on the implementation's states
+    let bad := ((steps.filter (fun s => !isX s)).map (stepOk start stop)).filter (fun r => !r.1)
+    -- … and "it is that stored weight which scales the old velocity in the next update": every velocity
+    -- update read exactly the weight the latest inertia-weight update stored (the initial one before the
+    -- first), wherever in the loop body that update stands
+    let chain := steps.foldl (fun (acc : Float × List String) s => match s with
+      | .list [.atom "inertia", _, _, _, w] => match w.float? with
+        | some w => (w, acc.2)
+        | none => (acc.1, "bad-step" :: acc.2)
+      | .list [.atom "wuse", _, w] => match w.float? with
+        | some w => if w == acc.1 then acc else (acc.1, "weight-chain" :: acc.2)
+        | none => (acc.1, "bad-step" :: acc.2)
+      | _ => acc) (start, [])
+    let badW := chain.2.reverse
+    -- K: the schedule the loop model predicts (`wAt`)
+    let schedule := steps.all fun s => match s with
+      | .list [.atom "wuse", it, w] => match it.nat?, w.float? with
+        | some it, some w => close 1e-12 w (wAt Float.ofNat P n start it) (start.abs + stop.abs)
+        | _, _ => false
+      | _ => true
+    let cnt := fun (t : String) => (steps.filter (fun s => match s with | .list (.atom h :: _) => h == t | _ => false)).length
+    let passes := cnt "passx"
+    let complete := status != "ok" ||
+      (cnt "exitx" == 1 && cnt "inv" == 2 * passes && cnt "pb" == passes && cnt "wuse" == passes &&
+        cnt "inertia" == (if inertia == 1 then passes else 0))
+    -- a run that ends in `Err` / panic disagrees with the model (K); O judges the states it went through
+    let holds := bad.isEmpty && badW.isEmpty && complete
+    let cls := match bad, badW with
+      | (_, c) :: _, _ => c
+      | [], c :: _ => c
+      | [], [] => if holds then "-" else "no-steps"
+    let agree := status == "ok" && loopAgrees c steps && schedule
+    pure { agree, holds, cls, model := .list [.atom "steps", Sexp.ofNat steps.length, .atom "passes", Sexp.ofNat passes] }
   | _ => none
 
 def handle (input implOut : Sexp) : Option Verdict := do
@@ -315,8 +477,10 @@ def handle (input implOut : Sexp) : Option Verdict := do
     else if kind == "pbest" then pbestCase args implOut
     else if kind == "gbest" then gbestCase args implOut
     else if kind == "swarm" then swarmCase args implOut
+    else if kind == "swarminit" then swarmInitCase args implOut
     else if kind == "linear" then linearCase args implOut
     else if kind == "run" || kind == "runc" then runCase args implOut
+    else if kind == "runx" then runxCase args implOut
     else none
   | _ => none
 
